@@ -240,6 +240,14 @@ class Source:
             if e.tag == "unitClassDefinition" and attr(e, "defaultUnits") is not None:
                 pos.append(("default-units", f"unit class {nm}",
                             on_sec(ug, i, lambda r, el: (set_attr(el, "defaultUnits", "zzunit"), el.findtext("name"))[1]), (kind, 0)))
+                # a unit that exists - in another unit class
+                own_units = {u.findtext("name") for u in e.findall("unit")}
+                foreign = next((u.findtext("name") for d in self.root.iter("unitClassDefinition") if d is not e
+                                for u in d.findall("unit") if u.findtext("name") not in own_units), None)
+                if foreign:
+                    pos.append(("default-units", f"unit class {nm} = {foreign} (a unit of another class)",
+                                on_sec(ug, i, lambda r, el, fu=foreign: (set_attr(el, "defaultUnits", fu), el.findtext("name"))[1]),
+                                (kind, 0, "foreign")))
             if attr(e, "allowedCharacter") is not None:
                 pos.append(("allowed-character", f"{kind} {nm}",
                             on_sec(ug, i, lambda r, el: (set_attr(el, "allowedCharacter", "zzchars"), el.findtext("name"))[1]),
